@@ -103,6 +103,15 @@ def pair_ratio(E, cfg):
     q = Quantity(a, u)
     r = q.convert(v)
     E.check(r.amount == q.amount * su / sv, 'pair-ratio-of-reference-scales', key='pair-ratio', info=[us, vs])
+    # the ratio as the quotient of the two units, in both directions and again (the quotient of two units of one
+    # type is a plain number)
+    for label, fn, exp in (('u/v', lambda: u / v, su / sv), ('v/u', lambda: v / u, sv / su), ('u/v-again', lambda: u / v, su / sv)):
+        try:
+            amnt, ru = fn()
+        except Exception as e:
+            E.fail('unit-quotient', key='pair-quotient:%s' % type(e).__name__, info=[us, vs, label])
+            continue
+        E.check(ru is None and amnt == exp, 'unit-quotient-is-ratio-of-reference-scales', key='pair-quotient', info=[us, vs, label])
 
 
 def compound(E, cfg):
@@ -254,7 +263,7 @@ def after_user_declarations(E, cfg):
     import quantity.predefined as pre
     from quantity.money import Money
     step = E.choice('step', ['clash-unit-other-type', 'clash-type-ref-symbol', 'clash-currency', 'user-unit',
-                             'extra-temperature-converter', 'none'])
+                             'extra-temperature-converter', 'unregistered-temperature-table', 'none'])
     watched = {'a': pre.ARE, 'B': pre.BYTE, 'l': pre.LITRE, 'm': pre.METRE, 'kg': pre.KILOGRAM, 'h': pre.HOUR,
                'K': pre.KELVIN, 'mi': pre.MILE}
 
@@ -276,6 +285,12 @@ def after_user_declarations(E, cfg):
     elif step == 'user-unit':
         pre.Length.new_unit('smoot', 'Smoot', Decimal('1.7018') * pre.METRE)
         pre.Area.new_unit('dunam', 'Dunam', Decimal(1000) * pre.SQUARE_METRE)
+    elif step == 'unregistered-temperature-table':
+        # a converter for temperature differences is built (list and mapping form) but never registered
+        rows = [(pre.CELSIUS, pre.KELVIN, 1, 0), (pre.CELSIUS, pre.FAHRENHEIT, Fraction(9, 5), 0),
+                (pre.KELVIN, pre.FAHRENHEIT, Fraction(9, 5), 0)]
+        TableConverter(rows)
+        TableConverter({(r[0], r[1]): (r[2], r[3]) for r in rows})
     elif step == 'extra-temperature-converter':
         rankine = pre.Temperature.new_unit('°R', 'Rankine')
         pre.Temperature.register_converter(TableConverter([(pre.KELVIN, rankine, Fraction(9, 5), 0)]))
